@@ -88,6 +88,23 @@ pub fn run_enc<T: Model>(ctx: &mut Ctx) {
                     &["fixed_len_exact", "enc", &d, &val, &name],
                 );
             }
+            if let Some(_n) = T::union_variants() {
+                // C15: the leading byte is the zero-based declaration index of the variant
+                let idx: Option<usize> = if val == "N" {
+                    Some(0)
+                } else if val.starts_with("S(") {
+                    Some(1)
+                } else if val.starts_with('U') {
+                    val[1..].split('(').next().and_then(|x| x.parse().ok())
+                } else {
+                    None
+                };
+                let ok = match idx {
+                    Some(i) => bytes.first().map(|b| *b as usize) == Some(i),
+                    None => false,
+                };
+                ctx.out.r("C15", "enc", ok, &["selector_is_declaration_index", "enc", &d, &val, &name]);
+            }
             if T::roundtrip() {
                 let back = catch_unwind(AssertUnwindSafe(|| T::from_ssz_bytes(&bytes)));
                 let ok = matches!(&back, Ok(Ok(w)) if *w == v);
@@ -95,7 +112,7 @@ pub fn run_enc<T: Model>(ctx: &mut Ctx) {
             }
             // C04 (<-): what the specification serializer produces must be accepted with this value;
             // the `spec` line above ties Spec.ser to these bytes, the decode line ties acceptance.
-            ctx.out.m("dec", &dec_str::<T>(&bytes), &["dec", &d, &hx]);
+            ctx.out.m(if <T as Decode>::is_ssz_fixed_len() { "decf" } else { "dec" }, &dec_str::<T>(&bytes), &["dec", &d, &hx]);
             ctx.out.bump(&format!("enc.len.{}", bucket(bytes.len())));
         }
         if ctx.on("entry") {
@@ -303,8 +320,25 @@ pub fn run_dec<T: Model>(ctx: &mut Ctx) {
             Ok(Err(_)) => "err".to_string(),
             Err(_) => "panic".to_string(),
         };
-        ctx.out.m("dec", &s, &["dec", &d, &hx]);
+        // fixed-size types get their own label so that C07 depends only on them
+        ctx.out.m(if fixed { "decf" } else { "dec" }, &s, &["dec", &d, &hx]);
+        if T::strict() && T::roundtrip() {
+            // C04: the Lean decoder is proven equal to the strict reference deserializer (C04.decode_iff_spec),
+            // so for these types a disagreement is an implementation-vs-specification failure
+            ctx.out.o("C04", "dec", &s, &["dec", &d, &hx]);
+        }
         ctx.out.r("C05", "dec", r.is_ok(), &["no_panic", "dec", &d, &hx, &name]);
+        if let Some(n) = T::union_variants() {
+            // C15: empty input, selectors that name no declared variant and selectors above 127 are rejected
+            let must_reject = b.is_empty() || (b[0] as usize) >= n || b[0] > 127;
+            if must_reject {
+                ctx.out.r("C15", "dec", matches!(r, Ok(Err(_))), &["selector_rejected", "dec", &d, &hx, &name]);
+            }
+        }
+        if let Some(ok) = catch_unwind(AssertUnwindSafe(|| T::collection_oracle(&b))).unwrap_or(Some(false)) {
+            ctx.out.r("C19", "dec", ok, &["decode_is_collect_of_entry_list", "dec", &d, &hx, &name]);
+            ctx.out.r("C04", "dec", ok, &["decode_is_collect_of_entry_list", "dec", &d, &hx, &name]);
+        }
         match &r {
             Ok(Ok(v)) => {
                 ctx.out.bump(&format!("dec.{}.ok", d_short(&d)));
